@@ -12,7 +12,8 @@ fn err_str(e: &ParseSingleError) -> String {
     use ParseSingleError::*;
     let s = |k: &str, sp: &miette::SourceSpan| format!("{}:{}:{}", k, sp.offset(), sp.len());
     match e {
-        InvalidRegex { .. } | InvalidRegexWithoutMessage(_) => "InvalidRegex:?:?".to_string(),
+        InvalidRegex { span, .. } => s("InvalidRegex", span),
+        InvalidRegexWithoutMessage(sp) => s("InvalidRegex", sp),
         InvalidGlob { span, .. } => s("InvalidGlob", span),
         ExpectedCloseRegex(sp) => s("ExpectedCloseRegex", sp),
         InvalidOrOperator(sp) => s("InvalidOrOperator", sp),
@@ -50,7 +51,9 @@ const NAME_ATOMS: &[&str] = &[
 ];
 const BAD_ESC: &[&str] = &["\\q", "\\u{d800}", "\\u{110000}", "\\u{}", "\\u{1234567}", "\\u{12", "\\", "\\'", "\\\"", "\\0", "\\x41", "\\u41"];
 const REGEX_ATOMS: &[&str] = &["a", "b.*", "^x", "y$", "\\w+", "\\/", "\\\\", "\\\\\\/", "[a-z]", "(a|b)", "\\p{Greek}", " ", "\\.", "é", "a{2}", "\\d", "\\\\/"];
-const BAD_REGEX: &[&str] = &["(", "[a", "a{2", "*a", "\\p{Nope}", "(?P<n", "a**", "\\"];
+const BAD_REGEX: &[&str] = &["(", "[a", "a{2", "*a", "\\p{Nope}", "(?P<n", "a**", "\\",
+    // accepted by regex-syntax, refused by regex (compiled size limit): InvalidRegexWithoutMessage
+    "\\w{1000}{1000}", "(a{1000}){1000}x", "[a-z]{500}{500}{4}", "é{900}{900}{2}"];
 const GLOB_ATOMS: &[&str] = &["foo", "*", "?", "[ab]", "[!a]", "{a\\,b}", "x", "-", "w", "**", "{", "}", "[", "]", "[b-a]", "\\\\"];
 
 fn pick_join(rng: &mut Rng, atoms: &[&str], lo: u64, hi: u64) -> String {
@@ -172,9 +175,19 @@ fn oracle() {
         let line = line.unwrap();
         let (k, h) = line.split_at(1);
         let text = String::from_utf8(unhex(h)).unwrap();
-        let ok = if k == "r" {
-            regex::Regex::new(&text).is_ok()
-        } else {
+        if k == "r" {
+            // what `regex` says, and for a refused text the span `regex-syntax` blames (none: it accepts the text)
+            if regex::Regex::new(&text).is_ok() { writeln!(out, "1").unwrap(); continue; }
+            let ans = match regex_syntax::Parser::new().parse(&text) {
+                Ok(_) => "0".to_string(),
+                Err(regex_syntax::Error::Parse(e)) => format!("0~{}~{}", e.span().start.offset, e.span().end.offset),
+                Err(regex_syntax::Error::Translate(e)) => format!("0~{}~{}", e.span().start.offset, e.span().end.offset),
+                Err(_) => "0".to_string(),
+            };
+            writeln!(out, "{}", ans).unwrap();
+            continue;
+        }
+        let ok = {
             match globset::GlobBuilder::new(&text).backslash_escape(false).empty_alternates(true).build() {
                 Ok(g) => regex::bytes::Regex::new(g.regex()).is_ok(),
                 Err(_) => false,
